@@ -23,10 +23,23 @@ Record callobs := mkco {
   co_in_time : bool               (* the call returned before its effective deadline plus slack *)
 }.
 
+(* when the call is timed: the caller's deadline (if any) and the request timeout, relative to the start of the
+   call, and how long Submit took (all in nanoseconds: a timeout may be that small); timed = the transport or the response body stalls until
+   the context ends, so that the call has to be ended by its effective deadline *)
+Record timing := mktm { tm_timed : bool; tm_parent : option Z; tm_timeout : Z; tm_elapsed : Z }.
+Definition slack_ns : Z := 2000000000%Z.
+Definition in_time (t : timing) : bool :=
+  if tm_timed t then
+    match must_return_by (tm_parent t) 0 (tm_timeout t) with
+    | Some m => (tm_elapsed t <=? m + slack_ns)%Z
+    | None => false             (* a stalled exchange without any deadline: not generated *)
+    end
+  else true.
+
 Inductive case :=
 | CDrain (segs : list nat) (fin : final) (sizes : list nat)
          (log : list (nat * nat)) (closes unread : nat) (ended : bool)
-| CCall (nvalues : nat) (files : list fileprog) (sc : scenario) (keepalive : bool) (o : callobs)
+| CCall (nvalues : nat) (files : list fileprog) (sc : scenario) (keepalive : bool) (o : callobs) (t : timing)
 | CDeadline (parent : option Z) (timeout : Z) (observed : option Z) (duration : Z).
 
 Definition has_failing (files : list fileprog) : bool :=
@@ -36,7 +49,7 @@ Definition has_failing (files : list fileprog) : bool :=
 Definition body_consumed (sc : scenario) : bool :=
   match sc_auth sc with
   | AOk true | AFail true => true
-  | _ => match sc_transport sc with TRespond None _ => true | _ => false end
+  | _ => sc_debug sc || match sc_transport sc with TRespond None _ => true | _ => false end
   end.
 
 Definition zle (a b : Z) : bool := (a <=? b)%Z.
@@ -54,7 +67,7 @@ Definition check_case (c : case) : N :=
       end in
     (* closed exactly once; the end was reached, by the caller or by the drain *)
     verdict corr (Nat.eqb closes 1 && ended && Nat.eqb unread 0)
-  | CCall nvalues files sc keepalive o =>
+  | CCall nvalues files sc keepalive o t =>
     let m := call all_fixed (compile all_fixed nvalues files) sc in
     let nfiles := length files in
     let expect_closes := if c_started m then w_file_closes (c_w m) + c_builder_closes m else c_builder_closes m in
@@ -65,10 +78,13 @@ Definition check_case (c : case) : N :=
       Nat.eqb (co_resp_opened o) (c_resp_opened m) && Nat.eqb (co_resp_closes o) (c_resp_closes m) in
     let prop :=
       forallb (Nat.eqb 1) (co_file_closes o) && co_goroutine_gone o &&
+      (* a response body that was obtained is closed, exactly once - with Debug on too, the dump of the response
+         failing or going through (no case is excused since the repair of F-C12-5; the model, all_fixed, says 1
+         wherever a response was obtained: C12_response_closed_exactly_once) *)
       Nat.eqb (co_resp_closes o) (co_resp_opened o) &&
       (if keepalive then Nat.eqb (co_resp_left o) 0 else true) &&
       (if has_failing files && body_consumed sc && negb (sc_param_err sc) then negb (co_ok o) else true) &&
-      co_in_time o in
+      co_in_time o && in_time t in
     verdict corr prop
   | CDeadline parent timeout observed duration =>
     (* the deadline seen by the transport lies between the effective deadline computed at the start of the
